@@ -35,6 +35,13 @@ pub struct Scn {
     pub follow_inputs: [u8; 4],
     /// restrict the reset points: (operation index, tick inside a Clock burst or u32::MAX for "after the op")
     pub only: Option<(u32, u32)>,
+    /// second scenario kind: a lock-step run (real machine next to R-ISA) with resets and reloads
+    /// injected at arbitrary clock edges: torn-instruction oracle (every RAM byte holds the value
+    /// from before or after the instruction in flight), reset state against the reference, and
+    /// the cycle cost of the instructions after the reset (a stale wait flag or micro-address
+    /// shows up as an extra or missing edge)
+    #[serde(default)]
+    pub lockstep: Option<crate::engine::SeqScn>,
 }
 
 fn v(oracle: &str, at: (usize, u32), d: String) -> Violation {
@@ -332,6 +339,20 @@ fn reset_faults(pre: &Machine, scn: &Scn, known: &Known, at: (usize, u32), ctx: 
 }
 
 fn run(scn: &Scn, ctx: &mut Ctx) -> Result<(), Violation> {
+    if let Some(seq) = &scn.lockstep {
+        let cfg = crate::engine::SeqCfg { prop: "C07", compare: crate::lockstep::Compare::Off, check_cost: true, compare_board: false };
+        crate::engine::run_seq(seq, cfg, ctx, |ls, ev, ctx| {
+            if *ev == crate::lockstep::Event::Boundary {
+                if let Some(i) = &ls.last {
+                    if i.class == crate::isa::Class::Reset {
+                        ctx.cov.probe("lockstep:first-boundary-after-reset");
+                    }
+                }
+            }
+        })?;
+        ctx.cov.evaluations += seq.events.len() as u64;
+        return Ok(());
+    }
     let mut m = Machine::new(MachineConfig::default());
     let mut known = Known::default();
     for (i, op) in scn.ops.iter().enumerate() {
@@ -460,7 +481,35 @@ impl Check for C07 {
             Tier::Thorough => 600_000,
         }
     }
-    fn generate(&self, rng: &mut Rng, _tier: Tier, _idx: u64) -> Scn {
+    fn generate(&self, rng: &mut Rng, _tier: Tier, idx: u64) -> Scn {
+        if idx % 4 == 3 {
+            // lock-step scenario with resets / reloads / key presses on arbitrary edges
+            let mut setup = gen::hazard_setup(rng, 0);
+            setup.regs = None;
+            let max_edges = 400 + rng.below(1500) as u32;
+            let nev = 1 + rng.below(8);
+            let mut events: Vec<(u32, Stim)> = (0..nev)
+                .map(|_| {
+                    let t = rng.below(max_edges as u64) as u32;
+                    let s = match rng.below(8) {
+                        0..=3 => Stim::CpuReset,
+                        4 => Stim::MasterReset,
+                        5 => Stim::Load(program(rng)),
+                        6 => Stim::KeyInt,
+                        _ => Stim::InReg(rng.below(4) as u8, rng.u8()),
+                    };
+                    (t, s)
+                })
+                .collect();
+            events.sort_by_key(|e| e.0);
+            return Scn {
+                ops: vec![],
+                follow: Image { bytes: vec![], stack: 16, limit: None },
+                follow_inputs: [0; 4],
+                only: None,
+                lockstep: Some(crate::engine::SeqScn { setup, events, max_edges }),
+            };
+        }
         let n = 3 + rng.usize(40);
         let mut ops = vec![];
         if rng.chance(9, 10) {
@@ -491,12 +540,15 @@ impl Check for C07 {
                 _ => Op::S(Stim::Flip(rng.below(0xF0) as u8, rng.below(8) as u8)),
             });
         }
-        Scn { ops, follow: follow_up(rng), follow_inputs: [rng.u8(), rng.u8(), rng.u8(), rng.u8()], only: None }
+        Scn { ops, follow: follow_up(rng), follow_inputs: [rng.u8(), rng.u8(), rng.u8(), rng.u8()], only: None, lockstep: None }
     }
     fn execute(&self, scn: &Scn, ctx: &mut Ctx) -> Result<(), Violation> {
         run(scn, ctx)
     }
     fn shrink(&self, scn: &Scn, v: &Violation) -> Vec<Scn> {
+        if let Some(seq) = &scn.lockstep {
+            return crate::engine::shrink_seq(seq, v).into_iter().map(|s| Scn { lockstep: Some(s), ..scn.clone() }).collect();
+        }
         let mut out = vec![];
         let opi = v.detail.strip_prefix("op#=").and_then(|s| s.split(' ').next()).and_then(|s| s.parse::<usize>().ok());
         let tick = v.detail.find("tick=").and_then(|i| v.detail[i + 5..].split(' ').next()).map(|s| if s == "end" { u32::MAX } else { s.parse().unwrap_or(u32::MAX) });
@@ -549,7 +601,7 @@ impl Check for C07 {
         })
     }
     fn must_fire(&self, _tier: Tier) -> Vec<String> {
-        ["RST-CPU", "RST-MASTER", "RELOAD", "reset-mid-instruction", "reset-with-key-flip-flop-set", "reset-of-halted-machine", "board-outputs-non-default-before-reset", "constructed-machine-equality"].iter().map(|s| s.to_string()).collect()
+        ["RST-CPU", "RST-MASTER", "RELOAD", "lockstep:first-boundary-after-reset", "reset-mid-instruction", "reset-with-key-flip-flop-set", "reset-of-halted-machine", "board-outputs-non-default-before-reset", "constructed-machine-equality"].iter().map(|s| s.to_string()).collect()
     }
     fn exhaustive_dims(&self, _tier: Tier) -> Vec<String> {
         vec!["reset point: every prefix of each history, every tick of each Real-mode burst, x 3 reset kinds".into()]
